@@ -84,13 +84,26 @@ Definition redirect_status (code : Z) : Z := if code =? 0 then 302 else code.
 
 (** ** findings (guards on the inputs) *)
 
-(** C12-F2: the status to send is not a three-digit code: the kind's override is
-    configured (non-zero) but no HTTP status, or a redirect error carries such a code *)
+(** the status to send is not a three-digit code.  C12-F2: the kind's override is configured
+    (non-zero) but no HTTP status.  C12-F5: a redirect error VALUE carries such a code (no
+    heimdall mechanism produces one since 6c5864d; only code that builds the value by hand) *)
+Definition guard_F2o_class (c : cfg) (k : class) : bool :=
+  match k with
+  | ClRedirect _ _ => false
+  | _ => negb (override c k =? 0) && negb (valid_code (override c k))
+  end.
+
+Definition guard_F5_class (k : class) : bool :=
+  match k with ClRedirect code _ => negb (valid_code code) | _ => false end.
+
 Definition guard_F2_class (c : cfg) (k : class) : bool :=
   match k with
   | ClRedirect code _ => negb (valid_code code)
   | _ => negb (override c k =? 0) && negb (valid_code (override c k))
   end.
+
+Lemma guard_F2_class_split c k : guard_F2_class c k = guard_F2o_class c k || guard_F5_class k.
+Proof. destruct k; simpl; try rewrite orb_false_r; reflexivity. Qed.
 
 Definition guard_F2 (c : cfg) (e : err) : bool := guard_F2_class c (spec_class e).
 
